@@ -118,6 +118,16 @@ def run(tier):
 
 def replay(path):
     o = json.load(open(path))
+    if "history" in o["replay"]:
+        from lib import e2e
+        p = os.path.join(vlib.WORK, "replay_c11.ndjson")
+        e2e.write_ndjson(p, o["replay"]["history"])
+        acc, matched, r = validate_trace("TraceUdp", "TraceUdp.cfg", p)
+        print("recorded history: accepted=%s matched=%d of %d" % (acc, matched, len(o["replay"]["history"])))
+        if not acc:
+            print("VIOLATION property=C11 replay=%s" % path)
+            return 1
+        return 0
     sc = o["replay"].get("scenario")
     if not sc:
         print(json.dumps(o, indent=1))
